@@ -1,7 +1,7 @@
 #!/bin/bash
-# usage: tools_seedconfirm.sh Cxx   -- confirm a seeded change in its scratch worktree /tmp/seed/Cxx, then store it under /verif/seeded/Cxx
+# usage: tools_seedconfirm.sh Cxx [worktree-root [name-under-seeded]]   -- confirm a seeded change in its scratch worktree /tmp/seed/Cxx, then store it under /verif/seeded/Cxx
 #   (1) unchanged src: demo passes   (2) patched src: whole suite passes, demo fails
-id=$1; wt=/tmp/seed/$id; out=$wt/out; dst=/verif/seeded/$id
+id=$1; root=${2:-/tmp/seed}; wt=$root/$id; out=$wt/out; dst=/verif/seeded/${3:-$id}
 export CARGO_TARGET_DIR=$wt/target CARGO_NET_OFFLINE=true
 cd $wt || exit 2
 git checkout -q -- src
